@@ -28,6 +28,7 @@ func TestProp(t *testing.T) {
 		kit.Clause[Subject]{Name: "C19/density/integrates-to-one", Quick: 2400, Thorough: 60000,
 			Gen: func(t *rapid.T) Subject { return subjectGen(t, allMatKinds, true) }, Check: checkIntegral},
 		kit.Clause[statCase]{Name: "C19/sampler/matches-density", Quick: 800, Thorough: 8000, Gen: statGen, Check: checkSampler},
+		kit.Clause[hgLimitCase]{Name: "C19/hg/forward-limit", Quick: 300, Thorough: 6000, Gen: genHGLimit, Check: checkHGLimit},
 		kit.Clause[energyCase]{Name: "C19/bsdf/energy-bound", Quick: 1600, Thorough: 40000, Gen: energyGen, Check: checkEnergy},
 		kit.Clause[schlickCase]{Name: "C19/refract/schlick-split", Quick: 500, Thorough: 8000,
 			Gen: func(t *rapid.T) schlickCase { return schlickGen(t, sampleCount(8000, 30000)) }, Check: checkSchlick},
